@@ -245,6 +245,35 @@ def combo_positions(rng, n):
                 board[s] = rng.choice("NBQnbq")
         rights = "".join(c for c in "KQkq" if c in rights)
         out.append(board_to_fen(board, stm, rights, None, rng.choice([0, 3, 49, 99]), rng.choice([1, 20])))
+    # family B: castling available AND an en-passant square set (castling must clear / undo must restore the ep state)
+    for _ in range(max(4, n // 2)):
+        stm = rng.choice("wb")
+        board = {4: "K", 60: "k"}
+        rights = ""
+        for sq_, pc, flag in ((7, "R", "K"), (0, "R", "Q"), (63, "r", "k"), (56, "r", "q")):
+            if rng.random() < 0.85:
+                board[sq_] = pc
+                rights += flag
+        f = rng.randrange(8)
+        if stm == "w":      # black just pushed f7-f5
+            board[32 + f] = "p"
+            ep = 40 + f
+            capr, cap = 32, "P"
+        else:               # white just pushed f2-f4
+            board[24 + f] = "P"
+            ep = 16 + f
+            capr, cap = 24, "p"
+        for df in (-1, 1):
+            if 0 <= f + df < 8 and rng.random() < 0.7:
+                board[capr + f + df] = cap
+        for _ in range(rng.randrange(0, 4)):
+            x = rng.randrange(8, 56)
+            if x not in board and x not in (ep, ep + 8, ep - 8):
+                board[x] = rng.choice("NBnbPp" if 8 <= x < 48 else "NBnb")
+        rights = "".join(c for c in "KQkq" if c in rights)
+        out.append(board_to_fen(board, stm, rights, ep, 0, rng.choice([3, 20])))
+    out += ["r3k2r/8/8/3pP3/8/8/8/R3K2R w KQkq d6 0 6", "r3k2r/8/8/8/3Pp3/8/8/R3K2R b KQkq d3 0 6",
+            "rnbqk2r/ppp2ppp/1n2p3/3pP3/8/1B3N2/PPPP1PPP/RNBQK2R w KQkq d6 0 6"]
     # fixed seeds of the same family (every corner, both colours, rights live)
     out += ["r3k2r/1P4P1/8/8/8/8/8/4K3 w kq - 0 1", "4k3/8/8/8/8/8/1p4p1/R3K2R b KQ - 0 1",
             "r3k2r/1P4P1/8/8/8/8/1p4p1/R3K2R w KQkq - 3 9", "r3k2r/1P4P1/8/8/8/8/1p4p1/R3K2R b KQkq - 3 9",
